@@ -27,8 +27,8 @@ for fr in ("FIRSTRUN2.rows", "FIRSTRUN3.rows", "FIRSTRUN4.rows"):
 out = ["# Seeded changes and the checks that catch them", "",
        "Each change was written by an independent sub-agent that saw only the property text and a scratch worktree;",
        "it compiles, passes the repository's tests and comes with a demonstration (`seeded/<id>/`).",
-       "Round 1 (ids -A, -B), round 2 (ids -C, -D) and round 3 (ids -E, -F; each later round written after the earlier ones had been used to strengthen the checks, by agents",
-       "told to use other mechanisms). `first run` (FIRSTRUN.rows, FIRSTRUN2.rows, FIRSTRUN3.rows) is the result before any check was strengthened for that round, `now` the result of the last run of",
+       "Four sets: ids -A -B, -C -D, -E -F, -G -H; each later set was written after the earlier ones had been used to strengthen the checks, by agents",
+       "told to use other sites and triggers. `first run` (FIRSTRUN.rows ... FIRSTRUN4.rows) is the result before any check was strengthened for that set, `now` the result of the last run of",
        "`tools/seeded.sh <id>` (quick tier, `VERIF_REPO=<scratch copy with the patch>`).", "",
        "| Id | Property | Change | first run | now |", "|---|---|---|---|---|"]
 n = det = 0
